@@ -102,6 +102,12 @@ func (r *Result) absorb(s *Sched) {
 	r.Skipped += s.Skipped
 	r.Trace = r.Trace*1099511628211 ^ s.Trace
 	r.SchedSig = r.SchedSig*1099511628211 ^ s.SchedSig
+	if s.FreeRuns > 0 {
+		r.probeN("scheduler-fell-back-to-free-running(lock-invisible-to-the-scheduler-held-across-a-yield)", s.FreeRuns)
+	}
+	if s.ForeignEvents > 0 {
+		r.probe("seam-events-from-goroutines-started-by-the-code-under-test")
+	}
 }
 
 type Scenario struct {
@@ -207,7 +213,17 @@ func Execute(c *Case, env *Env) (res *Result, harnessErr error) {
 			panic(r)
 		}
 	}()
-	return sc.Run(c, env), nil
+	res = sc.Run(c, env)
+	// race build: whatever the scenario, a data race involving the code under
+	// test that the detector saw during the case is a violation (C09: "no
+	// unsynchronised memory access") - e.g. a goroutine left behind by a failed
+	// call that keeps writing to an iterator the caller is using again
+	if RaceBuild && res != nil && res.Fail == nil {
+		if f := raceVerdict("C09"); f != nil {
+			res.Fail = f
+		}
+	}
+	return res, nil
 }
 
 // ---- shard runner ------------------------------------------------------------------
@@ -376,7 +392,7 @@ func startMemoryWatchdog(limit uint64, prop string, seed uint64, shard int, outD
 			} else {
 				buf := make([]byte, 1<<20)
 				buf = buf[:runtime.Stack(buf, true)]
-				if !mutexBlockedInIce(string(buf)) {
+				if !blockedInIce(string(buf)) {
 					fmt.Fprintf(os.Stderr, "HARNESS ERROR: no progress for %v and no goroutine is blocked inside ice\n%s\n", stallLimit, trimDump(string(buf)))
 					os.Exit(2)
 				}
